@@ -104,8 +104,16 @@ def run(prog, chk):
     chk.ok("R7.1", "no-trapping-i64", "%d bodies of the evaluator/literal parser scanned" % nbod)
     chk.floor("R7.1", "evaluator bodies", nbod, 15)
     chk.floor("R7.1", "i64::wrapping_* call sites", nwrap, 10)
-    ab = prog.body("brush_core::arithmetic::apply_binary_op")
-    if chk.anchor("R7.1", "brush_core::arithmetic::apply_binary_op", ab):
+    # role-derived: the body of brush_core::arithmetic holding the big match on BinaryOperator (today apply_binary_op)
+    ab = None
+    best = 0
+    for cand in prog.all_bodies({"brush_core"}):
+        if cand.name.startswith("brush_core::arithmetic::") and "::tests::" not in cand.name:
+            for sw in enum_switches(prog, cand, "brush_parser::ast::BinaryOperator"):
+                if len(sw[1]) > best:
+                    best = len(sw[1])
+                    ab = cand
+    if chk.anchor("R7.1", "operator table (largest match on BinaryOperator in brush_core::arithmetic)", ab):
         c = cfg_of(ab)
         d = defs_of(ab)
         for callee, opname, what in (("i64::wrapping_div", "Eq", "right == 0"), ("i64::wrapping_rem", "Eq", "right == 0"),
@@ -289,7 +297,17 @@ def run(prog, chk):
     # ---- R7.4 short circuit -----------------------------------------------------------------------------------
     chk.rule("R7.4", "&& / || / ?: evaluate the later operand only on the proper edge of a test of the earlier one; assignments evaluate "
                      "the right-hand side before assigning")
-    if ab is not None:
+    sc = None
+    for cand in prog.all_bodies({"brush_core"}):
+        if cand.name.startswith("brush_core::arithmetic::") and "::tests::" not in cand.name:
+            if any("LogicalAnd" in sw[1] and len(sw[1]) <= 3 for sw in enum_switches(prog, cand, "brush_parser::ast::BinaryOperator")) \
+                    and len([1 for _, t in cand.calls() if t.best_callee() == EVAL]) >= 4:
+                sc = cand
+    if not chk.anchor("R7.4", "short-circuit evaluator (dedicated match on LogicalAnd/LogicalOr that evaluates operands)", sc):
+        sc = None
+    if sc is not None:
+        ab_saved = ab
+        ab = sc
         c = cfg_of(ab)
         d = defs_of(ab)
         sws = enum_switches(prog, ab, "brush_parser::ast::BinaryOperator")
@@ -349,19 +367,81 @@ def run(prog, chk):
                     chk.ok("R7.4", "conditional", "then/else evaluations are on different edges after the condition", function=EVAL)
                 else:
                     chk.fail("R7.4", EVAL, "conditional", "?: evaluates both branches or not after the condition")
-            for v, first_callee in (("Assignment", EVAL), ("BinaryAssignment", "brush_core::arithmetic::apply_binary_op")):
-                blks = regs.get(v, set())
-                asg = [bb for bb in blks if eb.blocks[bb].term.kind == "call" and eb.blocks[bb].term.best_callee() == "brush_core::arithmetic::assign"]
-                fst = [bb for bb in blks if eb.blocks[bb].term.kind == "call" and eb.blocks[bb].term.best_callee() == first_callee]
-                if asg and fst and all(c.dominates(fst[0], a) for a in asg):
-                    chk.ok("R7.4", "assign-order:" + v, "value computed before assign()", function=EVAL)
+            # Assignment: the value is computed before assign()
+            blks = regs.get("Assignment", set())
+            asg = [bb for bb in blks if eb.blocks[bb].term.kind == "call" and eb.blocks[bb].term.best_callee() == "brush_core::arithmetic::assign"]
+            fst = [bb for bb in blks if eb.blocks[bb].term.kind == "call" and eb.blocks[bb].term.best_callee() == EVAL]
+            if asg and fst and all(c.dominates(fst[0], a) for a in asg):
+                chk.ok("R7.4", "assign-order:Assignment", "value computed before assign()", function=EVAL)
+            else:
+                chk.fail("R7.4", EVAL, "assign-order:Assignment", "Assignment arm: assign() is not dominated by the evaluation of its value")
+            # BinaryAssignment (`x op= rhs`): the target's current value is read before rhs is evaluated (left to right),
+            # and both before assign(). Role-derived from which variant field flows into each call.
+            from dataflow import flow_back
+            blks = regs.get("BinaryAssignment", set())
+            reads_l, reads_r, asg = [], [], []
+            for bb in sorted(blks):
+                t = eb.blocks[bb].term
+                if t.kind != "call" or (t.callee or "").startswith(("core::", "alloc::")):
+                    continue
+                got = set()
+                for ai, a in enumerate(t.args):
+                    for f in flow_back(eb, d, a, all_args=True):
+                        for pth in f.path:
+                            if pth[0] == 'f' and str(pth[2]).endswith("ArithmeticExpr::BinaryAssignment"):
+                                got.add((pth[3], ai))
+                flds = {x for x, _ in got}
+                if t.best_callee() == "brush_core::arithmetic::assign":
+                    asg.append(bb)
+                    continue
+                if "1" in flds:
+                    reads_l.append((bb, t, [ai for x, ai in got if x == "1"]))
+                if "2" in flds:
+                    reads_r.append((bb, t, [ai for x, ai in got if x == "2"]))
+            if not reads_l or not reads_r or not asg:
+                chk.fail("R7.4", EVAL, "assign-order:BinaryAssignment", "BinaryAssignment arm: could not find the read of the target (%d), the evaluation of the operand (%d) and assign() (%d)"
+                         % (len(reads_l), len(reads_r), len(asg)))
+            else:
+                lb, lt, lidx = reads_l[0]
+                bad = None
+                for rb, rt, ridx in reads_r:
+                    if rb == lb:
+                        # one call receives both: the callee must evaluate the earlier parameter first
+                        cal = prog.body(rt.best_callee())
+                        if cal is None or not _param_order(prog, cal, min(lidx), min(ridx)):
+                            bad = "the helper %s does not evaluate the target before the operand" % rt.best_callee()
+                    elif not c.dominates(lb, rb):
+                        bad = "the operand is evaluated (line %s) before the target's current value is read (line %s)" % (rt.line, lt.line)
+                if bad is None and not all(c.dominates(rb, a) for rb, _, _ in reads_r for a in asg):
+                    bad = "assign() is not dominated by the evaluation of the operand"
+                if bad:
+                    chk.fail("R7.4", EVAL, "assign-order:BinaryAssignment", "`x op= rhs`: %s — side effects of rhs on x change the result (bash reads x first)" % bad)
                 else:
-                    chk.fail("R7.4", EVAL, "assign-order:" + v, "%s arm: assign() is not dominated by the evaluation of its value" % v)
+                    chk.ok("R7.4", "assign-order:BinaryAssignment", "target read before the operand is evaluated, both before assign()", function=EVAL)
 
     # ---- R7.5 deref depth guard ----------------------------------------------------------------------------
     chk.rule("R7.5", "deref_lvalue: the recursive evaluation with depth+1 is dominated by the MAX_VARIABLE_DEREF_DEPTH test; the other "
                      "recursive call only evaluates a Literal")
     deref_depth_rule(prog, chk, "R7.5")
+
+
+def _param_order(prog, cal, ia, ib):
+    """in body `cal`, is the first evaluation (eval_expr_impl / deref_lvalue) of parameter #ia dominating every evaluation
+    of parameter #ib on the paths where both are evaluated?"""
+    from dataflow import flow_back
+    c = cfg_of(cal)
+    d = defs_of(cal)
+    ev = {ia: [], ib: []}
+    for bb, t in cal.calls():
+        if t.best_callee() not in (EVAL, "brush_core::arithmetic::deref_lvalue") or bb not in c.reach:
+            continue
+        for f in flow_back(cal, d, t.args[0] if t.best_callee() == EVAL else t.args[1]):
+            if f.kind == 'arg' and f.node in (ia + 1, ib + 1):
+                ev[f.node - 1].append(bb)
+    if not ev[ia] or not ev[ib]:
+        return False
+    # every evaluation of b is dominated by some evaluation of a
+    return all(any(c.dominates(a, b_) for a in ev[ia]) for b_ in ev[ib])
 
 
 def deref_depth_rule(prog, chk, rid):
